@@ -140,6 +140,19 @@ def fastGradHalf {m nv : Nat} (ss : List (Sched K m nv)) (E : Option (ExtW K m))
 
 end wse
 
+/-! ## simple quadratic loss (simple_quadratic_loss_function.py) -/
+section simple
+variable {K : Type} [Add K] [Sub K] [Mul K] [Zero K] [One K]
+
+/-- `SimpleQuadraticLossFunction.value`: `np.sum((var − var_ref)**2)` -/
+def simpleValue {n : Nat} (ref x : Vec K n) : K := (x.sub ref).dot (x.sub ref)
+/-- `gradient`: `2·(var − var_ref)` -/
+def simpleGrad {n : Nat} (ref x : Vec K n) : Vec K n := Vec.ofFn fun i => (1 + 1) * (x.get i - ref.get i)
+/-- `hessian`: `2·I` -/
+def simpleHess {n : Nat} (i j : Fin n) : K := if i = j then 1 + 1 else 0
+
+end simple
+
 /-! ## option wiring (state records) -/
 section wiring
 variable {K : Type} [Add K] [Sub K] [Mul K] [Div K] [Zero K] [One K] [LT K] [DecidableLT K] [NatCast K]
@@ -508,6 +521,12 @@ def handle (args : List String) : Option String :=
       else if which = "fgrad" then
         some (showEs (idx.map fun α => (fastGradHalf ss (ws.map fun l => ⟨l⟩) x α).map fun v => two * v))
       else none
+  | ["simple", n, ref, x] => do
+      let n ← parseNat? n
+      let ref ← mkVec n (← parseList? parseRat? ref)
+      let x ← mkVec n (← parseList? parseRat? x)
+      let idx := List.finRange n
+      some s!"ok {showRat (simpleValue ref x)} {showList showRat (simpleGrad ref x).toList} {showList showRat (idx.flatMap fun i => idx.map fun j => simpleHess (K := Rat) i j)}"
   -- inverse-covariance weight inputs: the matrix handed to numpy's inv
   | ["extracted", mode, m, q, eps, n, n32] => do
       let mode ← parseMode mode
